@@ -22,6 +22,54 @@ theorem Lst.concatLoop_atomic (ty : Ty) : ∀ (vs : List Val) (l l' : Lst) (e : 
     | raised x => simp [ha, R.isOk] at hv
     | ub => simp [ha, R.isOk] at hv
 
+/-- `Array_Concat` from a source whose elements are all accepted: the loop completes, the new slots hold typed elements -/
+theorem Arr.concatLoop_ok (ty : Ty) : ∀ (vs : List Val), (vs.any (fun v => !(assignTo ty v).isOk)) = false →
+    (Arr.concatLoop ty vs).2 = none ∧ ∀ x ∈ (Arr.concatLoop ty vs).1, x.ty? = some ty ∧ x ≠ .nullstr := by
+  intro vs
+  induction vs with
+  | nil => intro _; simp [Arr.concatLoop]
+  | cons v vs ih =>
+    intro hk
+    simp only [List.any_cons, Bool.or_eq_false_iff, Bool.not_eq_false'] at hk
+    obtain ⟨hv, hvs⟩ := hk
+    obtain ⟨i1, i2⟩ := ih hvs
+    cases ha : assignTo ty v with
+    | ok w =>
+      obtain ⟨h1, h2, h3⟩ := assignTo_ok ty v w ha
+      simp only [Arr.concatLoop, ha]
+      rcases hc : Arr.concatLoop ty vs with ⟨r, x⟩
+      rw [hc] at i1 i2
+      simp only at i1 i2 ⊢
+      refine ⟨i1, ?_⟩
+      intro y hy
+      rcases List.mem_cons.mp hy with h | h
+      · subst h; subst h1; exact ⟨h2, h3⟩
+      · exact i2 y h
+    | raised x => simp [ha, R.isOk] at hv
+    | ub => simp [ha, R.isOk] at hv
+
+/-- `List_Concat` pushes item by item: the exception is that of the first source element `assign` refuses -/
+theorem Lst.concatLoop_exc (ty : Ty) (hty : ty.isElemTy) : ∀ (vs : List Val) (l : Lst), l.ty = ty →
+    (∀ v ∈ vs, v ≠ Val.nullstr) → (l.concatLoop vs).2.exc? = vs.findSome? (elemExc ty) := by
+  intro vs
+  induction vs with
+  | nil => intro l _ _; simp [Lst.concatLoop, R.exc?]
+  | cons v vs ih =>
+    intro l hl hn
+    have ha := assignTo_exc ty hty v (hn v List.mem_cons_self)
+    simp only [Lst.concatLoop, Lst.push, hl]
+    cases hx : assignTo ty v with
+    | ok w =>
+      rw [hx] at ha
+      have : elemExc ty v = none := by simpa [R.exc?] using ha.1.symm
+      simp only [List.findSome?_cons, this]
+      exact ih _ (by simp [hl]) (fun w hw => hn w (List.mem_cons_of_mem _ hw))
+    | raised e =>
+      rw [hx] at ha
+      have : elemExc ty v = some e := by simpa [R.exc?] using ha.1.symm
+      simp [List.findSome?_cons, this, R.exc?]
+    | ub => rw [hx] at ha; exact absurd rfl ha.2
+
 /-- `eq(item, t->items[i])` for an argument of the items' type -/
 theorem eqv_arg (ty : Ty) (hty : ty.isElemTy) (x v : Val) (hx : x.elemOf ty) (hv : v.elemOf ty) :
     eqv v x = .ok (decide (v = x)) := by
@@ -133,6 +181,10 @@ def Obj.kf : Obj → Op → Bool
   | .tab t, op => t.kf op
   | .tre t, op => t.kf op
   | .str s, op => s.kf op
+  | .nest n, .set k v => n.kf (.set k (.val v))
+  | .nest n, .push v => n.kf (.push (.val v))
+  | .nest n, .append v => n.kf (.push (.val v))
+  | .nest n, .pushAt v k => n.kf (.pushAt (.val v) k)
   | _, _ => false
 
 theorem Store.put_view (σ : Store) (id : Nat) (o o' : Obj) (hget : σ.get? id = some o) (hv : o'.view = o.view) :
@@ -160,6 +212,12 @@ def kf (σ : Store) (id : Nat) (op : Op) : Bool :=
   match σ.get? id with
   | some o => o.kf op
   | none => false
+
+/-- territory of the known findings for the nested-container operation `op` on object `id` of the store -/
+def kfN (σ : Store) (id : Nat) (op : NOp) : Bool :=
+  match σ.get? id with
+  | some (.nest n) => n.kf op
+  | _ => false
 
 /-- objects for which a failed operation restores the representation exactly, capacity and scratch included -/
 def Obj.exact : Obj → Bool
